@@ -5,6 +5,6 @@
      WatchLemmas   what a watch will be given as a function of the raw items ahead of it
      WatchInv      the invariant tying publisher state, commit log and deliveries, preserved by every step
      WatchProofs   watch_complete_ordered, delivered_committed, read_after_event
-     Refute        the schedules with a restore on which the watch statement fails *)
+     Examples      concrete schedules (the former restore counterexamples, now repaired; non-vacuity) *)
 From Verif Require Export Resource.TableProofs Resource.CasProofs Resource.WatchDefs Resource.WatchLemmas
-     Resource.WatchInv Resource.WatchProofs Resource.Refute.
+     Resource.WatchInv Resource.WatchProofs Resource.Examples.
